@@ -993,3 +993,143 @@ func init() {
 		},
 	})
 }
+
+// ---- SQL schema of the ref store ----
+
+// ddlConsts: CREATE TABLE statements found as string constants in a package
+// (including its initialiser and closures), by table name.
+func ddlConsts(p *Program, rel string) map[string][]ddlText {
+	out := map[string][]ddlText{}
+	pkgPath := modPath + "/" + rel
+	for _, pkg := range p.SSA.AllPackages() {
+		if pkg.Pkg == nil || pkg.Pkg.Path() != pkgPath {
+			continue
+		}
+		var fns []*ssa.Function
+		var add func(f *ssa.Function)
+		add = func(f *ssa.Function) {
+			fns = append(fns, f)
+			for _, af := range f.AnonFuncs {
+				add(af)
+			}
+		}
+		for _, m := range pkg.Members {
+			if f, ok := m.(*ssa.Function); ok {
+				add(f)
+			}
+			if t, ok := m.(*ssa.Type); ok {
+				for _, ms := range []*types.MethodSet{p.SSA.MethodSets.MethodSet(t.Type()), p.SSA.MethodSets.MethodSet(types.NewPointer(t.Type()))} {
+					for i := 0; i < ms.Len(); i++ {
+						if f := p.SSA.MethodValue(ms.At(i)); f != nil && f.Pkg == pkg {
+							add(f)
+						}
+					}
+				}
+			}
+		}
+		seen := map[*ssa.Const]bool{}
+		for _, fn := range fns {
+			for _, b := range fn.Blocks {
+				for _, in := range b.Instrs {
+					for _, op := range in.Operands(nil) {
+						c, ok := (*op).(*ssa.Const)
+						if !ok || seen[c] {
+							continue
+						}
+						seen[c] = true
+						s, ok := constString(c)
+						if !ok {
+							continue
+						}
+						norm := normSQL(s)
+						if !strings.HasPrefix(norm, "create table ") {
+							continue
+						}
+						name := strings.Fields(strings.TrimPrefix(norm, "create table "))[0]
+						name = strings.TrimPrefix(name, "if not exists ")
+						name = strings.Trim(name, "(")
+						pos := in.Pos()
+						if !pos.IsValid() {
+							pos = fn.Pos()
+						}
+						out[name] = append(out[name], ddlText{norm, p.Rel(pos)})
+					}
+				}
+			}
+		}
+	}
+	return out
+}
+
+type ddlText struct{ text, pos string }
+
+// normSQL: lower-case, comments removed, whitespace collapsed.
+func normSQL(s string) string {
+	var lines []string
+	for _, l := range strings.Split(s, "\n") {
+		if i := strings.Index(l, "--"); i >= 0 {
+			l = l[:i]
+		}
+		lines = append(lines, l)
+	}
+	s = strings.ToLower(strings.Join(strings.Fields(strings.Join(lines, " ")), " "))
+	s = strings.ReplaceAll(s, "( ", "(")
+	s = strings.ReplaceAll(s, " )", ")")
+	return s
+}
+
+func init() {
+	register(&Rule{
+		ID: "C15-e", Template: "T10 agreement (schema text)",
+		Doc: "Names are matched literally and a log entry is never replaced: the CREATE TABLE text that production repositories get (pkg/migrate) equals, per table, the text the store is developed and tested against (pkg/ref/sql CreateTableStmts), and neither contains COLLATE (NOCASE would make `Main` and `main` one ref and prefix listings case-insensitive) nor an ON CONFLICT clause (a primary-key conflict on (ref, ordinal) must fail the transaction, not silently replace or drop a log row).",
+		Min: 6,
+		Run: func(p *Program, r *RuleResult) error {
+			if _, err := p.Func("pkg/ref/sql.(*Store).Filter"); err != nil {
+				return err
+			}
+			dev := ddlConsts(p, "pkg/ref/sql")
+			prod := ddlConsts(p, "pkg/migrate")
+			r.Analysed = len(dev) + len(prod)
+			for _, tbl := range []string{"refs", "reflogs", "transactions"} {
+				d, okd := dev[tbl]
+				pr, okp := prod[tbl]
+				key := "schema|" + tbl
+				what := "CREATE TABLE " + tbl + ": the migrated (production) schema equals the store's own"
+				if !okd || !okp {
+					r.missing(key, fmt.Sprintf("CREATE TABLE %s not found in both pkg/ref/sql (%v) and pkg/migrate (%v)", tbl, okd, okp))
+					continue
+				}
+				same := true
+				for _, x := range pr {
+					if x.text != d[0].text {
+						same = false
+						r.bad(key, x.pos, what, "the statement in pkg/migrate differs from pkg/ref/sql.CreateTableStmts ("+d[0].pos+"): the suite exercises a schema that production repositories do not have")
+						break
+					}
+				}
+				if same {
+					r.ok(key, pr[0].pos, what)
+				}
+				for i, x := range append(append([]ddlText{}, d...), pr...) {
+					k2 := fmt.Sprintf("schema|%s|clauses#%d", tbl, i)
+					w2 := "CREATE TABLE " + tbl + " has no COLLATE / ON CONFLICT clause"
+					var bad []string
+					for _, w := range sqlWords(x.text) {
+						if w == "COLLATE" || w == "NOCASE" {
+							bad = append(bad, w)
+						}
+					}
+					if strings.Contains(x.text, "on conflict") {
+						bad = append(bad, "ON CONFLICT")
+					}
+					if len(bad) > 0 {
+						r.bad(k2, x.pos, w2, "schema uses "+strings.Join(bad, ", ")+": ref names stop being matched literally / a conflicting log row is replaced instead of failing the update")
+					} else {
+						r.ok(k2, x.pos, w2)
+					}
+				}
+			}
+			return nil
+		},
+	})
+}
